@@ -150,6 +150,12 @@ func (s *cvServer) membership(q *protocol.MembershipDigest) (*protocol.Membershi
 			m.KeyDigest = q.KeyDigest
 		}
 		return m, ok
+	case "exists-flipped": // the genuine answer with the one boolean turned around
+		m, ok := s.honestMemb(s.log, q.KeyDigest, q.Version)
+		if ok {
+			m.Exists = !m.Exists
+		}
+		return m, ok
 	case "fork": // the server serves a log that diverged from the published one
 		return s.honestMemb(s.fork, q.KeyDigest, q.Version)
 	case "field":
@@ -322,6 +328,10 @@ func clientvCmd(out *cq.Out, seed uint64, tier string) {
 		sp.forkAt = 1 + rng.Intn(sp.n-2)
 		lg, fk := newBRun(), newBRun()
 		fill := func(r *bRun, upto int, other *bRun) {
+			seenEv := map[string]bool{}
+			for _, e := range r.events {
+				seenEv[string(e)] = true
+			}
 			for len(r.events) < upto {
 				k := 1
 				if upto-len(r.events) > 40 {
@@ -338,10 +348,14 @@ func clientvCmd(out *cq.Out, seed uint64, tier string) {
 					if other != nil && len(r.events)+j < len(other.events) && len(r.events)+j < sp.forkAt {
 						e = other.events[len(r.events)+j]
 					} else if len(r.events) > 0 && rng.Intn(4) == 0 {
-						e = sharePrefix(rng, r.events[rng.Intn(len(r.events))], prefixLens[rng.Intn(len(prefixLens))])
+						e = sharePrefix(rng, r.events[rng.Intn(len(r.events))], prefixLens[rng.Intn(len(prefixLens))]%250)
 					} else {
 						e = rng.Bytes(32)
 					}
+					if seenEv[string(e)] { // the events of this scenario are distinct (a repeated event moves to its later version)
+						e = rng.Bytes(32)
+					}
+					seenEv[string(e)] = true
 					evs = append(evs, e)
 				}
 				r.add(evs, k == 1)
@@ -371,7 +385,7 @@ func clientvCmd(out *cq.Out, seed uint64, tier string) {
 			}
 			return c
 		}
-		mmodes := []string{"honest", "honest", "honest", "other-version", "query-rewritten", "victim-proof", "victim-proof-own-key", "forged64", "forged64-relabelled", "absent-for-present", "fork", "field"}
+		mmodes := []string{"honest", "honest", "honest", "other-version", "query-rewritten", "victim-proof", "victim-proof-own-key", "forged64", "forged64-relabelled", "absent-for-present", "fork", "field", "exists-flipped"}
 		imodes := []string{"honest", "honest", "honest", "other-pair", "pair-rewritten", "fork", "fork-short"}
 		pickV := func() uint64 {
 			switch rng.Intn(6) {
@@ -483,6 +497,8 @@ func clientvCmd(out *cq.Out, seed uint64, tier string) {
 				out.Count("membership_auto_"+mode, 1)
 				if class != "ok" {
 					out.Violate("C12:"+class+":client.MembershipAutoVerify", fmt.Sprintf("client.MembershipAutoVerify %s on a %s answer (%s %.150s)", class, mode, site, msg), desc)
+				} else if ok && srv.lastMemb != nil && !srv.lastMemb.Exists {
+					out.Violate("C02:absence-claim-accepted:client.MembershipAutoVerify", fmt.Sprintf("MembershipAutoVerify returned true for an answer that claims the digest does NOT exist (server strategy: %s)", mode), desc)
 				} else if ok && !truth {
 					desc["answer"] = srv.lastMemb
 					out.Violate("C02:false-claim:client.MembershipAutoVerify:"+mode, fmt.Sprintf("MembershipAutoVerify(%x.., version %d) returned true on a %d-event log against an authentic snapshot store, but that digest was %s (server strategy: %s, fake digest=%v)",
@@ -528,6 +544,8 @@ func clientvCmd(out *cq.Out, seed uint64, tier string) {
 				c.Close()
 				if class != "ok" {
 					out.Violate("C12:"+class+":client.MembershipVerify", fmt.Sprintf("client.MembershipDigest/MembershipVerify %s on a %s answer (%s %.150s)", class, mode, site, msg), desc)
+				} else if ok2 && proof != nil && !proof.Exists {
+					out.Violate("C02:absence-claim-accepted:client.MembershipVerify", fmt.Sprintf("MembershipVerify returned true for an answer that claims the digest %x.. does NOT exist (it %s; server strategy: %s)", d[:4], map[bool]string{true: fmt.Sprintf("was inserted at version %d", a), false: "was never inserted"}[present], mode), desc)
 				} else if ok2 && !truth {
 					out.Violate("C02:false-claim:client.MembershipVerify:"+mode, fmt.Sprintf("MembershipVerify accepted, against the authentic snapshot of version %d, an answer for %x.. which was %s (server strategy: %s)",
 						v, d[:4], map[bool]string{true: fmt.Sprintf("inserted at version %d, later than that", a), false: "never inserted"}[present], mode), desc)
@@ -607,6 +625,71 @@ func clientvCmd(out *cq.Out, seed uint64, tier string) {
 				} else if same && !ok2 {
 					out.Violate("C03:honest-answer-rejected:client.IncrementalVerify", fmt.Sprintf("the genuine proof for (%d, %d) of a %d-event log, fetched with client.Incremental, is rejected by IncrementalVerify against the authentic snapshots", s, e, sp.n), desc)
 				}
+			}
+		}
+		// ---- one client shared by several goroutines (an agent runs up to ten tasks at once on one client): genuine answers
+		// fetched and verified at the same time all verify
+		{
+			srv.mu.Lock()
+			srv.mode = "honest"
+			srv.mu.Unlock()
+			c := mk()
+			var wg sync.WaitGroup
+			var fmu sync.Mutex
+			failures, panics, calls := 0, 0, 0
+			firstFail := ""
+			for g := 0; g < 8; g++ {
+				wg.Add(1)
+				go func(g int) {
+					defer wg.Done()
+					for i := 0; i < 40; i++ {
+						ei := (g*131 + i*17) % sp.n
+						v := uint64(ei) + uint64((g+i)%(sp.n-ei))
+						d := lg.events[ei]
+						okm, oki := false, false
+						p, msg := cq.Catch(func() {
+							proof, err := c.MembershipDigest(d, &v)
+							if err != nil {
+								fmu.Lock()
+								if firstFail == "" {
+									firstFail = fmt.Sprintf("MembershipDigest error: %v (log %d of %d events, event %d, version %d, mode %s)", err, li, sp.n, ei, v, srv.mode)
+								}
+								fmu.Unlock()
+							}
+							if err == nil && proof != nil {
+								hy := lg.snaps[cur].HyperDigest
+								okm = proof.DigestVerify(d, &balloon.Snapshot{EventDigest: d, HistoryDigest: lg.snaps[v].HistoryDigest, HyperDigest: hy, Version: v})
+							}
+							if ip, err := c.Incremental(uint64(ei), v); err == nil && ip != nil {
+								oki = ip.Verify(lg.snaps[ei], lg.snaps[v])
+							}
+						})
+						fmu.Lock()
+						calls++
+						if p {
+							panics++
+							if firstFail == "" {
+								firstFail = "panic: " + msg
+							}
+						} else if !okm || !oki {
+							failures++
+							if firstFail == "" {
+								firstFail = fmt.Sprintf("event %d at version %d: membership verifies=%v, incremental verifies=%v", ei, v, okm, oki)
+							}
+						}
+						fmu.Unlock()
+					}
+				}(g)
+			}
+			wg.Wait()
+			c.Close()
+			out.Case(fmt.Sprintf("shared-client:%d", li), true)
+			out.Count("shared_client_calls", calls)
+			if failures > 0 || panics > 0 {
+				out.Violate("C13:genuine-answer-lost-on-the-wire:shared-client", fmt.Sprintf("8 goroutines fetched and verified genuine answers through one client at the same time: %d of %d were rejected and %d panicked (first: %.200s); one at a time they all verify", failures, calls, panics, firstFail),
+					map[string]interface{}{"seed": seed, "log": li, "goroutines": 8})
+				out.Violate("C01:honest-answer-rejected:shared-client", fmt.Sprintf("8 goroutines fetched and verified genuine answers through one client at the same time: %d of %d were rejected and %d panicked (first: %.200s)", failures, calls, panics, firstFail),
+					map[string]interface{}{"seed": seed, "log": li, "goroutines": 8})
 			}
 		}
 		// rejected answers must not leave anything running behind (a verifier that is fed hostile answers all day)
